@@ -183,7 +183,7 @@ Definition w_block_end (s : wst) : wst * res Z :=
 (* the bits that a write-only (never seeking) use has produced so far *)
 Definition w_view (s : wst) : list bool :=
   bytes_bits (firstn (Z.to_nat (w_pos s)) (w_file s))
-  ++ firstn (Z.to_nat (7 - w_nb s)) (bits8 (w_cur s)).
+  ++ nbits_list (Z.to_nat (7 - w_nb s)) (Z.shiftr (w_cur s) (w_nb s + 1)).
 
 (* ============================================================ generic loops *)
 (* read_nbits / read_bitarray / read_uint / read_sint of both readers are the same
